@@ -58,6 +58,7 @@ pub fn all_fun_families(cfg: &FunCfg, sink: &mut FunSink) {
     fam_byname(cfg, sink);
     fam_declonly(cfg, sink);
     fam_alias(cfg, sink);
+    fam_positions(cfg, sink);
     if cfg.with_unsequenced {
         fam_effect(cfg, sink);
     }
@@ -539,6 +540,21 @@ pub fn fam_data(_cfg: &FunCfg, sink: &mut FunSink) {
             });
         }
     }
+    // cocase clauses of a three-destructor type written in every order (6) x every destructor
+    for (pi, perm) in [[0usize, 1, 2], [0, 2, 1], [1, 0, 2], [1, 2, 0], [2, 0, 1], [2, 1, 0]].into_iter().enumerate() {
+        for which in 0..3usize {
+            sink.offer(move || {
+                let clauses = ["m0 => n + 1000", "m1(a) => (a * 10) + n", "m3(a, b, c) => ((a * 100) + (b * 10)) + (c + n)"];
+                let written: Vec<&str> = perm.iter().map(|i| clauses[*i]).collect();
+                let call = ["o.m0", "o.m1(5)", "o.m3(1, 2, 3)"][which];
+                let src = format!(
+                    "{PRELUDE_TYPES}codata Obj3 {{ m0: i64, m1(a: i64): i64, m3(a: i64, b: i64, c: i64): i64 }}\n{PRELUDE_DEFS}def mk(n: i64): Obj3 {{ new {{ {} }} }}\ndef main(n: i64): i64 {{ let o: Obj3 = mk(n); println_i64({call}); println_i64(mk(n + 1).m1(2)); 0 }}\n",
+                    written.join(", ")
+                );
+                FunCase { name: format!("data/cocase3/perm{pi}/m{which}"), src, inputs: vec![vec![2], vec![-4]], sequenced: true }
+            });
+        }
+    }
     // lists: build, map with a closure, fold, share
     for n in [0i64, 1, 3, 6] {
         sink.offer(move || {
@@ -904,6 +920,13 @@ pub fn fam_alias(_cfg: &FunCfg, sink: &mut FunSink) {
         ("goto", "println_i64(label k { if a == 0 { goto k (b) } else { a - b } }); 0"),
         ("result", "println_i64(a); b"),
         ("closure_capture", "let f: Fun[i64, i64] = new { ap(q) => (q + a) - b }; println_i64(f.ap[i64, i64](1)); 0"),
+        // the same renamed variable in two operand slots of one construct
+        ("if_same", "if a == a { println_i64(b); 0 } else { println_i64(a); 1 }"),
+        ("sub_same", "println_i64((a - a) + b); 0"),
+        ("call_same", "println_i64(sub2(a, a) + b); 0"),
+        ("ctor_same", "println_i64(Tup(a, a).case[i64, i64] { Tup(p, q) => (p * 10) + q }); println_i64(b); 0"),
+        ("dtor_args_same", "println_i64((new { ap2(p, q) => (p * 10) + q }).ap2(b, b)); println_i64(a); 0"),
+        ("ctor_same_three", "println_i64(Cons(a, Cons(a, Cons(a, Nil))).case[i64] { Nil => 0, Cons(h, t) => h + sum(t) }); println_i64(b); 0"),
     ];
     let binders: Vec<(&str, &str)> = vec![
         ("let_alias", "let a: i64 = n; let b: i64 = m; #"),
@@ -913,6 +936,9 @@ pub fn fam_alias(_cfg: &FunCfg, sink: &mut FunSink) {
         ("known_cocase", "(new { ap2(a, b) => # }).ap2(n, m)"),
         ("lifted", "let a: i64 = n; let b: i64 = m; let rest: List[i64] = range(2); println_i64(sum(rest)); #"),
         ("param_alias_in_def", "via(n, m)"),
+        // both variables are captured by a closure that is still live: the rest of the `create` sees them renamed
+        ("captured_before", "let a: i64 = n; let b: i64 = m; let g: Fun[i64, i64] = new { ap(z) => (z + a) + b }; let u: i64 = g.ap[i64, i64](1); println_i64(u); #"),
+        ("captured_live", "let a: i64 = n; let b: i64 = m; let g: Fun[i64, i64] = new { ap(z) => (z + a) + b }; (let r: i64 = (#); println_i64(g.ap[i64, i64](r)); 0)"),
     ];
     for (un, u) in &uses {
         for (bn, bnd) in &binders {
@@ -923,6 +949,55 @@ pub fn fam_alias(_cfg: &FunCfg, sink: &mut FunSink) {
                     "{PRELUDE_TYPES}codata Fun2 {{ ap2(x: i64, y: i64): i64 }}\n{PRELUDE_DEFS}def sub2(p: i64, q: i64): i64 {{ p - q }}\ndef via(x: i64, y: i64): i64 {{ let a: i64 = x; let b: i64 = y; {u} }}\ndef main(n: i64, m: i64): i64 {{ {body} }}\n"
                 );
                 FunCase { name: format!("alias/{bn}/{un}"), src, inputs: vec![vec![7, 3], vec![0, 0], vec![3, 7], vec![0, 5]], sequenced: true }
+            });
+        }
+    }
+}
+
+// ---- FUN-POSITIONS: a block that binds a user variable named like a generated one (`x0`) and then
+// shadows the parameter `x` (so the compiler must pick a fresh name that avoids `x0`) is placed in
+// EVERY child position of every term form (whatever collects the used names has to visit them all) -----
+pub fn fam_positions(_cfg: &FunCfg, sink: &mut FunSink) {
+    let blocks: Vec<(&str, &str)> = vec![
+        ("lets", "(let x0: i64 = 5; let x: i64 = 2; x + x0)"),
+        ("clause", "(Cons(5, Nil).case[i64] { Nil => 0, Cons(x0, t) => (let x: i64 = 2; x + x0) })"),
+        ("cocase", "((new { ap(x0) => (let x: i64 = 2; x + x0) }).ap[i64, i64](5))"),
+    ];
+    // `#` is the block (value 7), `x` is the parameter
+    let positions: Vec<(&str, &str)> = vec![
+        ("if_fst", "if # == x { 1 } else { 0 }"),
+        ("if_snd", "if x == # { 1 } else { 0 }"),
+        ("ifz", "if # == 0 { 1 } else { x }"),
+        ("if_then", "if x == 7 { # } else { 0 }"),
+        ("if_else", "if x == 0 { 0 } else { # }"),
+        ("op_left", "# - x"),
+        ("op_right", "x - #"),
+        ("let_bound", "let y: i64 = #; y + x"),
+        ("let_body", "let y: i64 = x; y + #"),
+        ("call_arg1", "sub2(#, x)"),
+        ("call_arg2", "sub2(x, #)"),
+        ("ctor_arg", "Tup(x, #).case[i64, i64] { Tup(p, q) => p - q }"),
+        ("ctor_arg_first", "Tup(#, x).case[i64, i64] { Tup(p, q) => p - q }"),
+        ("dtor_arg", "(new { ap(q) => q - x }).ap[i64, i64](#)"),
+        ("dtor_receiver_body", "(new { ap(q) => q - # }).ap[i64, i64](x)"),
+        ("scrutinee", "Cons(#, Nil).case[i64] { Nil => 0, Cons(h, t) => h - x }"),
+        ("clause_body", "range(1).case[i64] { Nil => 0, Cons(h, t) => # - x }"),
+        ("clause_body_first", "Nil.case[i64] { Nil => # - x, Cons(h, t) => 0 }"),
+        ("print_arg", "println_i64(#); x"),
+        ("print_next", "println_i64(x); #"),
+        ("exit_arg", "if x == 99 { 0 } else { exit # }"),
+        ("goto_arg", "label k { if x == 99 { 0 } else { goto k (#) } }"),
+        ("label_body", "label k { # - x }"),
+        ("paren", "((#)) - x"),
+        ("nested_op_in_call", "sub2(x, x - #)"),
+    ];
+    for (bn, block) in &blocks {
+        for (pn, pos) in &positions {
+            let (bn, block, pn, pos) = (*bn, *block, *pn, *pos);
+            sink.offer(move || {
+                let body = pos.replace('#', block);
+                let src = format!("{PRELUDE_TYPES}{PRELUDE_DEFS}def sub2(p: i64, q: i64): i64 {{ p - q }}\ndef f(x: i64): i64 {{ {body} }}\ndef main(n: i64): i64 {{ println_i64(f(n)); println_i64(f(7)); 0 }}\n");
+                FunCase { name: format!("positions/{bn}/{pn}"), src, inputs: vec![vec![0], vec![3]], sequenced: true }
             });
         }
     }
@@ -942,11 +1017,16 @@ pub fn fam_effect(_cfg: &FunCfg, sink: &mut FunSink) {
         ("goto_arg", label("a", op(p(1, lit(1)), "+", call("add3", vec![p(2, var("n")), goto("a", p(3, lit(50))), p(4, lit(9))])))),
         ("exit_arg", op(p(1, lit(1)), "+", call("add3", vec![p(2, var("n")), T::Exit(Box::new(p(3, lit(50)))), p(4, lit(9))]))),
         ("codata_arg", call("twice", vec![T::Paren(Box::new(print(true, lit(1), new_fun("q", op(var("q"), "+", lit(1)))))), p(2, var("n"))])),
+        // chained applications: the destructor is a consumer ARGUMENT of the call / destructor in front of it
+        ("chain_call_dtor", T::Var("mkadd((println_i64(1); n)).ap[i64, i64]((println_i64(2); 5))".into())),
+        ("chain_dtor_dtor", T::Var("curry3(2).ap[i64, Fun[i64, i64]]((println_i64(1); n)).ap[i64, i64]((println_i64(2); 5))".into())),
+        ("chain_three", T::Var("curry3((println_i64(1); n)).ap[i64, Fun[i64, i64]]((println_i64(2); 3)).ap[i64, i64]((println_i64(3); 4))".into())),
+        ("chain_stream", T::Var("add3((println_i64(1); n), nats((println_i64(2); 4)).tl[i64].hd[i64], (println_i64(3); 1))".into())),
     ];
     for (name, t) in shapes {
         sink.offer(move || {
             let src = format!(
-                "{PRELUDE_TYPES}{PRELUDE_DEFS}def add3(p: i64, q: i64, r: i64): i64 {{ (p + q) + r }}\ndef twice(f: Fun[i64, i64], v: i64): i64 {{ f.ap[i64, i64](f.ap[i64, i64](v)) }}\n{}",
+                "{PRELUDE_TYPES}{PRELUDE_DEFS}def add3(p: i64, q: i64, r: i64): i64 {{ (p + q) + r }}\ndef twice(f: Fun[i64, i64], v: i64): i64 {{ f.ap[i64, i64](f.ap[i64, i64](v)) }}\ndef mkadd(d: i64): Fun[i64, i64] {{ new {{ ap(q) => q + d }} }}\ndef curry3(d: i64): Fun[i64, Fun[i64, i64]] {{ new {{ ap(a) => new {{ ap(b) => (a * d) - b }} }} }}\n{}",
                 main_def(&["n"], print(true, t, lit(0))).render()
             );
             FunCase { name: format!("effect/{name}"), src, inputs: vec![vec![0], vec![2]], sequenced: false }
